@@ -4,7 +4,10 @@ Real subprocess runs. For dumping variants of several configurations (the shippe
 variants of cell / C-potential / composite configurations, both schedulers): run A (with dumps, every dump file kept), then for
 every kept dump a fresh interpreter repeats the steps of jellyfysh/resume.py and continues (run B_k); the legs of B_k are compared
 bit for bit (handler, candidate times, out-state, whole global state, trash list, samples written) with the legs of A after dump
-k. Run C (same configuration without the dumping tagger, same seed) is compared with A minus its dumping events."""
+k. Run C (same configuration without the dumping tagger, same seed) is compared with A minus its dumping events. Scheduler level
+(`scheduler_round_trips`): real HeapScheduler / ListScheduler objects after random histories at large run times: every pending
+entry survives pickle bit for bit in its slot (the code side of the premise of `C19Heap.pickle_obsEq`) and original and
+unpickled scheduler answer random futures (with candidates within a few ulps of old ones) identically."""
 import os, configparser, tempfile, shutil
 from harness import runs
 
@@ -57,8 +60,117 @@ def first_diff(a, b):
     return None
 
 
+def scheduler_round_trips(ctx):
+    """the code side of `C19Heap.pickle_obsEq` / `resume_same_list`: on the real schedulers a pickle round trip leaves every
+    pending entry (time quotient, time remainder, handler, counter) bit-identical and in the same array slot, and the original
+    and the unpickled scheduler then answer any further sequence of pushes / trashes / gets identically. Times are drawn at
+    large run times with full-precision remainders (quotient + remainder is not representable as one double), with
+    near-ties between entries pushed before and after the round trip."""
+    import pickle, math
+    from harness.props import c06
+    real = c06.Real()
+    rng = ctx.rng
+    INF = float("inf")
+    for case in range(ctx.n(150, 1500)):
+        nh = rng.randint(1, 12)
+        H = [c06.Hd(i) for i in range(nh)]
+        hs, ls = real.HS(), real.LS()
+        q0 = float(rng.choice([0, 1, 3, 1030, 65536, rng.randint(0, 10 ** 6), rng.randint(0, 2 ** 40)]))
+        hist = []
+
+        def rtime():
+            c = rng.random()
+            r = rng.random() if c < 0.7 else rng.choice([0.0, 0.25, 0.5, 1 - 2.0 ** -53, 2.0 ** -53, 0.25000000000022876])
+            return max((q0 + rng.randint(0, 2), r), now[0])
+        now = [(-INF, -INF)]
+        pending = {}
+        for _ in range(rng.randint(1, 40)):
+            c = rng.random()
+            if c < 0.6 or not pending:
+                h = rng.randrange(nh)
+                if h in pending:
+                    continue
+                t = rtime()
+                for s_ in (hs, ls):
+                    s_.push_event(real.Time(*t), H[h])
+                pending[h] = t
+                hist.append(("push", h, t))
+            elif c < 0.8:
+                h = rng.choice(sorted(pending))
+                for s_ in (hs, ls):
+                    s_.trash_event(H[h])
+                del pending[h]
+                hist.append(("trash", h))
+            else:
+                if not pending:
+                    continue
+                a, b = hs.get_succeeding_event(), ls.get_succeeding_event()
+                now[0] = min(pending.values())
+                hist.append(("get",))
+        before = real.dump(hs)
+        try:
+            hs2, ls2, H2 = pickle.loads(pickle.dumps((hs, ls, H)))
+        except Exception as e:  # noqa
+            ctx.fail("C19:scheduler-pickle-raises", {"history": hist, "exception": repr(e)}, "pickling the schedulers raised")
+            continue
+        after = real.dump(hs2)
+        ctx.evaluations += 1
+        ctx.cls(("scheduler-round-trip", q0 >= 1, min(len(before), 20) // 5, len(before) != len(pending)))
+        if before != after:
+            k = next((i for i, (x, y) in enumerate(zip(before, after)) if x != y), min(len(before), len(after)))
+            ctx.fail("C19:heap-entries-change-in-pickle-round-trip",
+                     {"history": hist, "slot": k, "before": before[k] if k < len(before) else None, "after": after[k] if k < len(after) else None},
+                     "a pending heap entry (time quotient, remainder, handler, counter; uint64 bit patterns) is not restored exactly")
+            continue
+        if len(before) < len(pending):
+            ctx.fail("C19:heap-entries-missing-from-pickled-state", {"history": hist, "entries": len(before), "pending": len(pending)},
+                     "fewer heap entries are pickled than events are pending")
+            continue
+        # any future: same answers from the original and the unpickled schedulers (new candidates placed within a few ulps of old ones)
+        olds = sorted(pending.values())
+        fut = []
+        for _ in range(rng.randint(1, 25)):
+            c = rng.random()
+            if c < 0.5:
+                h = rng.randrange(nh)
+                if olds and rng.random() < 0.6:
+                    o = rng.choice(olds)
+                    t = max((o[0], min(max(c06.nxt(o[1], rng.randint(-3, 3)), 0.0), 1 - 2.0 ** -53)), now[0])
+                else:
+                    t = rtime()
+                if h in pending:
+                    fut.append(("trash", h)); pending.pop(h)
+                fut.append(("push", h, t)); pending[h] = t
+            elif c < 0.6 and pending:
+                h = rng.choice(sorted(pending)); fut.append(("trash", h)); pending.pop(h)
+            elif pending:
+                fut.append(("get",)); now[0] = min(pending.values())
+        if pending:
+            fut.append(("get",))
+
+        def play(s_, HH):
+            res = []
+            for op in fut:
+                try:
+                    if op[0] == "push":
+                        s_.push_event(real.Time(*op[2]), HH[op[1]])
+                    elif op[0] == "trash":
+                        s_.trash_event(HH[op[1]])
+                    else:
+                        res.append(s_.get_succeeding_event().i)
+                except Exception as e:  # noqa
+                    res.append("exc:" + type(e).__name__)
+            return res
+        ra, rb, rc, rd = play(hs, H), play(hs2, H2), play(ls, H), play(ls2, H2)
+        if ra != rb or rc != rd:
+            ctx.fail("C19:unpickled-scheduler-answers-differently",
+                     {"history": hist, "future": fut, "heap": [ra, rb], "list": [rc, rd]},
+                     "the unpickled scheduler serves a different sequence of events than the original for the same future calls")
+
+
 def run(ctx):
     rng = ctx.rng
+    scheduler_round_trips(ctx)
     ctx.rule = ("dumping variants of shipped configurations x {heap, list} scheduler x seeds; a case = one dump point (resume compared leg by "
                 "leg with the uninterrupted run); class = (configuration, scheduler, dump index bucket, handler class committed right "
                 "before the dump)")
